@@ -249,3 +249,9 @@ def r6(ctx):
             yield VIOL("C04-R6", "handoff/validate_signature->prevalidate/" + nm, "argument %d of prevalidate is not validate_signature's own `%s` as it is" % (pos, nm), where=v.span_of_block(p[0]))
         else:
             yield PASS("C04-R6", "handoff/validate_signature->prevalidate/" + nm, "`%s` handed on unchanged" % nm, [site(v, p[0], "prevalidate")])
+
+
+@M.rule("C04-R7", "wrappers around the entry point hand the caller's configuration on unchanged")
+def r_wrappers(ctx):
+    for r in wrapper_results(ctx, "C04-R7", (4,), VIOL, PASS, 'the freshness window is evaluated against a clock value the caller did not give'):
+        yield r
